@@ -56,7 +56,37 @@ def run_one(m, verbose=False):
         shutil.rmtree(ev, ignore_errors=True)
 
 
+def run_patch(patch, props, tier="quick", verbose=False):
+    """Apply a unified diff (paths relative to the repo root) to a scratch copy and run the checks."""
+    scratch = tempfile.mkdtemp(prefix="shred-mut.")
+    ev = tempfile.mkdtemp(prefix="shred-mut-ev.")
+    try:
+        subprocess.check_call(["rsync", "-a", "--exclude", "target", "--exclude", ".git", "/repo/", scratch + "/"])
+        p = subprocess.run(["patch", "-p1", "-d", scratch, "-i", os.path.abspath(patch)], stdout=subprocess.PIPE, stderr=subprocess.STDOUT)
+        if p.returncode != 0:
+            print("PATCH FAILED", p.stdout.decode()[-500:])
+            return 2
+        env = dict(os.environ, VERIF_REPO=scratch, VERIF_EVIDENCE_DIR=ev, VERIF_OUT_DIR=ev)
+        rc_all = 0
+        for prop in props:
+            p = subprocess.run([os.path.join(VERIF, "check"), prop, "--tier", tier], env=env, stdout=subprocess.PIPE, stderr=subprocess.STDOUT)
+            text = p.stdout.decode(errors="replace")
+            lines = [l for l in text.splitlines() if l.startswith("  C")]
+            print("%-4s %-7s %s" % (prop, "FIRED" if p.returncode else "silent", lines[0][:300] if lines else ""))
+            for l in lines[1:6]:
+                print("              " + l[:300])
+            if verbose:
+                print(text)
+        return 0
+    finally:
+        shutil.rmtree(scratch, ignore_errors=True)
+        shutil.rmtree(ev, ignore_errors=True)
+
+
 def main(argv):
+    if len(argv) > 2 and argv[1] == "--patch":
+        tier = "thorough" if "--thorough" in argv else "quick"
+        return run_patch(argv[2], [a for a in argv[3:] if not a.startswith("-")], tier, "-v" in argv)
     ms = load()
     if "--list" in argv:
         for m in ms:
